@@ -395,12 +395,46 @@ fn expand(t: &Tables, st: &State, depth: usize, l: &mut Local, out: &mut Vec<Sta
     }
 }
 
+const UNITS: [f64; 2] = [1e-3, 1e3];
+
+/// One face, one near-mesh criterion, everything multiplied by a length unit: the predicate computed by the
+/// code must be the one it computes at unit 1. Recorded with `op` = 10 + unit index.
+fn judge_unit(t: &Tables, mi: usize, ci: usize, f: usize, ui: usize, l: &mut Local) {
+    let u = UNITS[ui];
+    let c = &t.crits[ci];
+    let cu = match c {
+        Crit::Facing(..) => return,
+        Crit::Near { other, all, dist, planar, angle } => Crit::Near { other: *other, all: *all, dist: dist * u, planar: planar.map(|x| x * u), angle: *angle },
+    };
+    let m = &t.meshes[mi];
+    l.eval();
+    if geometric(m, &t.others[mi], f, c).is_none() {
+        l.gray("unit change on a tolerance boundary or with an ambiguous reference normal");
+        return;
+    }
+    let scaled = |m: &Mesh| Mesh::new(m.vertices().iter().map(|p| Point3::from(p.coords * u)).collect(), m.faces().to_vec(), false);
+    let mu = scaled(m);
+    let ou: Vec<Mesh> = t.others[mi].iter().map(|o| scaled(o)).collect();
+    l.bucket("near-mesh criterion at another length unit");
+    let s1: BTreeSet<usize> = [f].into_iter().collect();
+    let st = State { mesh: mi, sel: vec![f] };
+    let mk = || serde_json::to_value(Case { state: st.clone(), crit: Some(c.clone()), op: 10 + ui }).unwrap();
+    match guarded(|| apply(&mu, &ou, &s1, &cu, SelectOp::Keep).contains(&f)) {
+        Ok(got) => {
+            l.check("the near-mesh predicate does not depend on the length unit", "", got == t.pred[mi][ci].contains(&f), mk, || format!("unit {:e}: mesh {} face {} {:?}: {} against {} at unit 1", u, mi, f, c, got, t.pred[mi][ci].contains(&f)));
+        }
+        Err(e) => {
+            l.check("the near-mesh predicate does not depend on the length unit", "panic", false, mk, || e.clone());
+        }
+    }
+}
+
 pub fn run(tier: Tier) -> i32 {
     let mut cx = Ctx::new("C14", tier, "model_checking");
-    cx.rule = "explicit-state search over selections (bit sets over the faces of a tetrahedron, a two-normal 'roof', an octahedron, the roof with an extra zero-area face, the roof with rotated index triples, an unwelded two-sided sheet and a sheet exactly parallel to the tilted reference): initial states none, all, every singleton, every pair; actions {Add, Remove, Keep} x {facing: 9 directions (two of them far from unit length) x 3 angles; near_mesh: 5 reference meshes (two large planes, an offset copy, a small square whose border the subject overhangs, a tilted plane) x all/any vertices x 2 distances x planar None/0.2 x angle None/0.3/1.0}; every transition (and the mesh built from every state) is executed under all hash-set iteration orders with at most 2 departures from the default order; the per-face predicate is computed (i) independently from the geometry for the plane references and (ii) by the code itself in the canonical context (singleton selection, Keep); chains of two and three steps on one filter object (12 criteria squared x 9 operation pairs from the empty, full and singleton selections) are compared with the set algebra of those predicates. distinct = distinct (mesh, selection) states".into();
+    cx.rule = "explicit-state search over selections (bit sets over the faces of a tetrahedron, a two-normal 'roof', an octahedron, the roof with an extra zero-area face, the roof with rotated index triples, an unwelded two-sided sheet and a sheet exactly parallel to the tilted reference): initial states none, all, every singleton, every pair; actions {Add, Remove, Keep} x {facing: 9 directions (two of them far from unit length) x 3 angles; near_mesh: 5 reference meshes (two large planes, an offset copy, a small square whose border the subject overhangs, a tilted plane) x all/any vertices x 2 distances x planar None/0.2 x angle None/0.3/1.0}; every transition (and the mesh built from every state) is executed under all hash-set iteration orders with at most 2 departures from the default order; the per-face predicate is computed (i) independently from the geometry for the plane references and (ii) by the code itself in the canonical context (singleton selection, Keep); chains of two and three steps on one filter object (12 criteria squared x 9 operation pairs from the empty, full and singleton selections) are compared with the set algebra of those predicates; every near-mesh predicate is recomputed with subject, references, distance and planar tolerance in millimetres and in kilometres and must not change. distinct = distinct (mesh, selection) states".into();
     let t = tables();
     cx.bounds = json!({"max_deviations": MAX_DEV, "criteria": t.crits.len(), "meshes": 3, "depth": "closure", "execution_cap": EXEC_CAP});
-    cx.require(&["non-initial selection", "empty selection", "full selection", "partial selection", "facing criterion", "near-mesh criterion with angle tolerance", "near-mesh criterion without angle tolerance", "independent predicate agrees", "two steps on one filter object"]);
+    cx.require(&["non-initial selection", "empty selection", "full selection", "partial selection", "facing criterion", "near-mesh criterion with angle tolerance", "near-mesh criterion without angle tolerance", "independent predicate agrees", "two steps on one filter object", "near-mesh criterion at another length unit"]);
     cx.assume("the canonical-context predicate is cross-checked against an independent geometric computation wherever the reference normal is unambiguous (plane references)");
 
     // (i) independent predicate vs canonical-context predicate
@@ -423,6 +457,20 @@ pub fn run(tier: Tier) -> i32 {
         }
     }
     cx.absorb(l0);
+
+    // (iii) the same subject, references, distances and planar tolerances in millimetres and in kilometres: the
+    // per-face predicate is the same (cases that sit on a tolerance boundary at unit 1 are not judged)
+    let mut lu = Local::new();
+    for ui in 0..UNITS.len() {
+        for mi in 0..t.meshes.len() {
+            for ci in 0..t.crits.len() {
+                for f in 0..t.meshes[mi].faces().len() {
+                    judge_unit(&t, mi, ci, f, ui, &mut lu);
+                }
+            }
+        }
+    }
+    cx.absorb(lu);
 
     // (ii) chains of two and three steps on ONE filter object, from the empty, the full and every singleton
     // selection: the result is the set algebra of the per-face predicates, step by step
@@ -533,6 +581,16 @@ pub fn replay(case: &Val) -> Local {
         return l;
     }
     let c: Case = serde_json::from_value(case.clone()).expect("case");
+    if c.op >= 10 {
+        // a recorded unit-change case: one face, one criterion, unit index op - 10
+        if let (Some(cr), Some(f)) = (&c.crit, c.state.sel.first()) {
+            let key = format!("{:?}", cr);
+            if let Some(ci) = t.crits.iter().position(|x| format!("{:?}", x) == key) {
+                judge_unit(&t, c.state.mesh, ci, *f, (c.op - 10).min(UNITS.len() - 1), &mut l);
+            }
+        }
+        return l;
+    }
     let mut out = Vec::new();
     expand(&t, &c.state, 0, &mut l, &mut out);
     l
